@@ -190,8 +190,10 @@ func StructuralOps(nd Node, quick bool) map[string]interface{} {
 		ops["delete"] = del{}
 	}
 	ops["null"] = nil
-	ops["empty-bytes"] = []byte{}
 	ops["wrong-type-uint0"] = uint64(0)
+	if !quick {
+		ops["empty-bytes"] = []byte{}
+	}
 	if quick {
 		if b, ok := nd.Val.([]byte); ok && len(b) > 0 {
 			ops["trunc1"] = append([]byte{}, b[:len(b)-1]...)
